@@ -17,6 +17,7 @@ import concurrent.futures._base as _cf_base
 import concurrent.futures.process as _cf_process
 import concurrent.futures.thread as _cf_thread
 import enum
+import errno
 import hashlib
 import io
 import os
@@ -158,6 +159,8 @@ class Kernel:
         self.clock_jump_plan = list(cfg.get('clock_jumps', []))  # [(at_seq, delta)]
         self.stall_plan = dict(cfg.get('stalls', {}))           # seq -> seconds
         self.short_write = cfg.get('short_write', False)
+        self.disk_full = cfg.get('disk_full')       # (n, quarter): the n-th append of a worker to a scratch file fails with ENOSPC after quarter/4 of it
+        self.disk_full_seen = 0
         self.trace_digest = hashlib.sha256()
         self.seam_hook = None       # callable(kind, detail): may raise an injected fault
         self.task_counter = 0       # pool task ids are unique across all pools of a run
@@ -293,8 +296,9 @@ class Kernel:
         if p.image is not p:
             self.record('exit', kind)
             return
-        for f in p.files:
-            if not f.closed:
+        for wr_ in p.files:
+            f = wr_()
+            if f is not None and not f.closed:
                 lost = f._discard()
                 if lost:
                     self.note('buffer_lost', path=self.norm_path(f.name), nbytes=lost, task=f._task, how=kind)
@@ -733,10 +737,27 @@ class SimFile:
             if owner is not None and k.short_write and len(data) > 1 and k.cs.coin(1, 4, 'short'):
                 n = 1 + k.cs.choose(len(data) - 1, 'shortn')
                 k.fault_fired['short_write'] += 1
+            full = False
+            if owner is not None and k.disk_full is not None and owner.role == 'worker' and 'a' in self.mode \
+                    and k.norm_path(self.name).startswith('tmp/'):
+                # fault: the disk fills up while a worker appends to a scratch file - the write syscall stores a prefix (possibly
+                # nothing) and fails with ENOSPC
+                k.disk_full_seen += 1
+                if k.disk_full_seen == k.disk_full[0]:
+                    full = True
+                    n = (len(data) * k.disk_full[1]) // 4
             if owner is not None:
-                k.seam('write', f'{k.norm_path(self.name)} {n}B')
+                k.seam('write', f'{k.norm_path(self.name)} {n}B' + (' ENOSPC' if full else ''))
             if self._dead:
                 return
+            if full:
+                k.fault_fired['disk_full'] += 1
+                if n:
+                    _real['os.write'](self._fd, data[:n])
+                    k.touch_fd(self._fd)
+                    k.note('write', path=k.norm_path(self.name), data=data[:n], task=owner.task)
+                k.note('disk_full', path=k.norm_path(self.name), task=owner.task, kept=n, lost=len(data) - n)
+                raise OSError(errno.ENOSPC, os.strerror(errno.ENOSPC))
             chunk, data = data[:n], data[n:]
             _real['os.write'](self._fd, chunk)
             k.touch_fd(self._fd)
@@ -746,15 +767,19 @@ class SimFile:
     def close(self):
         if self.closed:
             return
-        self._flush()
-        if cur() is not None and not self._dead:
-            self._k.seam('close', self._k.norm_path(self.name))
-        self.closed = True
-        if not self._dead:
-            try:
-                _real['os.close'](self._fd)
-            except OSError:
-                pass
+        try:
+            self._flush()
+            if cur() is not None and not self._dead:
+                self._k.seam('close', self._k.norm_path(self.name))
+        finally:
+            # (a failing flush still closes the descriptor, and close() raises what the flush raised)
+            if self._k.fatal is None or True:
+                self.closed = True
+                if not self._dead:
+                    try:
+                        _real['os.close'](self._fd)
+                    except OSError:
+                        pass
 
     def _discard(self):
         lost = self._n
@@ -930,7 +955,7 @@ def _sim_open(file, mode='r', buffering=-1, encoding=None, errors=None, newline=
         if 'w' in mode or 'x' in mode:
             k.touch_fd(raw.fileno())
         f = SimRWFile(k, p, path, mode, raw)
-        p.image.files.append(f)
+        p.image.files.append(weakref.ref(f))
         return f
     k.seam('open-w', f'{k.norm_path(path)} {mode}')
     flags = os.O_WRONLY | os.O_CREAT | os.O_CLOEXEC
@@ -942,7 +967,9 @@ def _sim_open(file, mode='r', buffering=-1, encoding=None, errors=None, newline=
     if 'a' not in mode:
         k.touch_fd(fd)      # created or truncated now
     f = SimFile(k, p, path, mode, fd, encoding, 'b' in mode)
-    p.image.files.append(f)
+    # (the file table refers to its files weakly: a file object nobody refers to any more is closed - and therefore flushed - by
+    # CPython at once, `open(p, 'a').write(x)` does reach the disk)
+    p.image.files.append(weakref.ref(f))
     return f
 
 
